@@ -179,7 +179,10 @@ def external(I, name, args, kwargs, st, node):
     if name in ("xml.sax.saxutils.unescape", "html.unescape"):
         return sanitise(as_text(I, a0, st, node), "unescape")
     if name in ("xml.sax.saxutils.quoteattr",):
-        return sanitise(as_text(I, a0, st, node), "xml+quot")
+        # quoteattr picks the quote character from the data: a value with '"' and no "'" comes back
+        # as '...' with the '"' left as it is.  Only & < > are escaped for certain; a slice of the
+        # result (dropping its own quotes) therefore carries no guarantee about '"'.
+        return sanitise(as_text(I, a0, st, node), "xml")
     if last == "BeautifulSoup" or name.endswith("bs4.BeautifulSoup"):
         return AV(kinds=["ext"], tag="soup", regions=["F"], const=("soup", a0.const if a0 is not None else None))
     if name.startswith("re."):
